@@ -475,6 +475,12 @@ def r53_54(db, ctx):
                     ok4 = True
                 else:
                     why = f'guard i < len: {bool(lt)} (loop invariant i <= len: {inv}), result propagated: {propagated}'
+            elif b1 is not None and b2 is not None and b1['$i'] == b2['$i'] and prefix_blocks(f, R, b1['$i'], W):
+                # blocks drawn from seq[..i].chunks_exact(W) zipped with dst[..i].chunks_exact_mut(W), i a multiple of W: the blocks are exactly
+                # [0, i) of both slices, the tail is [i, len) of both (seq[..i] has already panicked if i > len)
+                propagated = any((f.callee_short(t2) or '').endswith('Try::branch') and f.dominates(bi, b2_) for b2_, t2 in f.calls())
+                ok4 = propagated
+                why = f'result propagated: {propagated}'
             elif chunk_tail(f, R, a1, a2, W):
                 # `src_blocks.remainder()` / `dst_blocks.into_remainder()` of the chunk iterators that drove the block loop: the elements after
                 # the last whole block of W, at the same offset in both slices (their lengths are asserted equal on entry)
@@ -484,6 +490,38 @@ def r53_54(db, ctx):
             else:
                 why = f'tail called on {X.show(a1, 60)} / {X.show(a2, 60)}'
         (ctx.ok if ok4 else ctx.fail)('R5.4', f, 'generic tail on seq[i..], dst[i..] under i < len, result propagated with ?', *([['same i for source and destination']] if ok4 else [why]))
+
+
+def prefix_blocks(f, R, i, W):
+    """The block loop iterates zip(seq[..i].chunks_exact(W), dst[..i].chunks_exact_mut(W)) with i = (x / W) * W."""
+    i = norm(i)
+    mul = m(('bin', 'Mul', ('bin', 'Div', '$x', '$w1'), '$w2'), i) or m(('bin', 'Mul', '$w2', ('bin', 'Div', '$x', '$w1')), i)
+    if mul is None or norm(mul['$w1']) != ('k', W) or norm(mul['$w2']) != ('k', W):
+        return False
+
+    def source(it):
+        it = norm(it)
+        for _ in range(3):
+            if it[0] == 'v':
+                ds = f.defs().get(it[1], [])
+                if len(ds) != 1 or ds[0][1] != 'term':
+                    return None
+                it = norm(R.call(ds[0][2]))
+            v = m(('call~', ('Iterator::by_ref', 'IntoIterator::into_iter'), ('$x',)), it)
+            if v is None:
+                break
+            it = norm(v['$x'])
+        mm = m(('call~', ('slice::chunks_exact', 'slice::chunks_exact_mut'), ('$x', ('k', '$n'))), it)
+        if mm is None or mm['$n'] != W:
+            return None
+        return KN.chunk_source(mm['$x'])
+    for bi, t in f.calls():
+        if (f.callee_short(t) or '').endswith('Iterator::zip') and len(t['args']) == 2:
+            zs = [source(R.operand(a_)) for a_ in t['args']]
+            if all(z is not None for z in zs) and zs[0][0] == ('p', 1) and zs[1][0] == ('p', 2) and \
+                    zs[0][1] is not None and norm(zs[0][1]) == i and zs[1][1] is not None and norm(zs[1][1]) == i:
+                return True
+    return False
 
 
 def chunk_tail(f, R, a1, a2, W):
